@@ -9,7 +9,7 @@
 From PauLie Require Import Pauli Collection CollectionT ParserT OtocLoopT MatrixT ClosureN ClosureT.
 From PauLieRefine Require Import PySem.
 From PauLieGen Require Import QueueGen.
-From Coq Require Import Lia ZifyBool Permutation.
+From Coq Require Import Lia ZifyBool Permutation Sorted.
 Open Scope Z_scope.
 
 (* p and g anticommute (strings of one length) *)
@@ -677,6 +677,122 @@ Proof.
 Qed.
 Theorem gen_q_append_delayed d v : py_Q_append_delayed d v = FRet (d ++ [v]).
 Proof. reflexivity. Qed.
+
+(* ---- append keeps the legs behind the centre ordered by length (the shape the read-out of the census relies on) ---- *)
+Definition lens (L : list (list pstr)) : list nat := map (@length pstr) L.
+Definition SortedLegs (L : list (list pstr)) : Prop := StronglySorted le (lens (tl L)).
+Lemma SS_nth l : StronglySorted le l -> forall i j, (i <= j < length l)%nat -> (nth i l 0 <= nth j l 0)%nat.
+Proof.
+  induction 1 as [|a l HS IH HF]; intros i j Hij; [cbn in Hij; lia|]. destruct i as [|i], j as [|j]; cbn [nth]; try lia.
+  - rewrite Forall_forall in HF. apply HF. apply nth_In. cbn in Hij. lia.
+  - apply IH. cbn in Hij. lia.
+Qed.
+Lemma SS_of_nth l : (forall i j, (i <= j < length l)%nat -> (nth i l 0 <= nth j l 0)%nat) -> StronglySorted le l.
+Proof.
+  induction l as [|a l IH]; intros H; [constructor|]. constructor.
+  - apply IH. intros i j Hij. apply (H (S i) (S j)). cbn. lia.
+  - apply Forall_forall. intros x Hx. destruct (In_nth l x O Hx) as [k [Hk <-]]. apply (H 0%nat (S k)). cbn. lia.
+Qed.
+Lemma nth_insert_atL {A} (d x : A) : forall p l k, (p <= length l)%nat ->
+  nth k (insert_atL p x l) d = if (k <? p)%nat then nth k l d else if (k =? p)%nat then x else nth (k - 1) l d.
+Proof.
+  induction p as [|p IH]; intros l k Hp.
+  - assert (E : insert_atL 0 x l = x :: l) by (destruct l; reflexivity). rewrite E. destruct k as [|k]; [reflexivity|]. cbn [nth].
+    change (S k <? 0)%nat with false. change (S k =? 0)%nat with false. cbv iota. replace (S k - 1)%nat with k by lia. reflexivity.
+  - destruct l as [|a l]; [cbn in Hp; lia|]. cbn [insert_atL]. destruct k as [|k]; [reflexivity|]. cbn [nth]. rewrite IH by (cbn in Hp; lia).
+    change (S k <? S p)%nat with (k <? p)%nat. change (S k =? S p)%nat with (k =? p)%nat. destruct (k <? p)%nat eqn:E1; [reflexivity|]. destruct (k =? p)%nat eqn:E2; [reflexivity|].
+    apply Nat.ltb_ge in E1. apply Nat.eqb_neq in E2. destruct k as [|k]; [lia|]. replace (S (S k) - 1)%nat with (S k) by lia. replace (S k - 1)%nat with k by lia. reflexivity.
+Qed.
+Lemma insert_atL_length {A} (x : A) : forall p l, (p <= length l)%nat -> length (insert_atL p x l) = S (length l).
+Proof. induction p as [|p IH]; intros l Hp; [destruct l; reflexivity|]. destruct l as [|a l]; [cbn in Hp; lia|]. cbn [insert_atL length]. rewrite IH by (cbn in Hp; lia). reflexivity. Qed.
+Lemma SS_insert l x p : StronglySorted le l -> (p <= length l)%nat -> (forall k, (k < p)%nat -> (nth k l 0 <= x)%nat) -> (forall k, (p <= k < length l)%nat -> (x <= nth k l 0)%nat) ->
+  StronglySorted le (insert_atL p x l).
+Proof.
+  intros HS Hp Hlo Hhi. apply SS_of_nth. intros i j Hij. rewrite insert_atL_length in Hij by exact Hp. rewrite !nth_insert_atL by exact Hp.
+  pose proof (SS_nth l HS) as HN.
+  destruct (Nat.ltb_spec i p) as [Ei|Ei], (Nat.ltb_spec j p) as [Ej|Ej].
+  - apply HN. lia.
+  - destruct (Nat.eqb_spec j p) as [Ej2|Ej2]; [apply Hlo; exact Ei|]. apply Nat.le_trans with x; [apply Hlo; exact Ei|apply Hhi; lia].
+  - lia.
+  - destruct (Nat.eqb_spec i p) as [Ei2|Ei2], (Nat.eqb_spec j p) as [Ej2|Ej2]; try lia.
+    + apply Hhi. lia.
+    + apply HN. lia.
+Qed.
+
+(* which index the insertion loop of append picks: the largest one (of a descending range) whose leg is not longer than the new one *)
+Lemma append_loop_picks : forall idx L chk v lit li vi leg L', (forall i, In i idx -> 0 <= i) -> StronglySorted Z.gt idx ->
+  py_Q_append_loop1 idx L chk v lit li vi leg = FRet L' ->
+  exists i, In i idx /\ L' = insert_atL (S (Z.to_nat i)) leg L /\ (Z.to_nat i < length L)%nat /\ (length (nth (Z.to_nat i) L []) <= length leg)%nat /\
+            forall j, In j idx -> j > i -> (length leg < length (nth (Z.to_nat j) L []))%nat.
+Proof.
+  induction idx as [|i idx IH]; intros L chk v lit li vi leg L' Hpos Hsort H; [discriminate H|]. cbn [py_Q_append_loop1] in H.
+  destruct (idx_ok L i) eqn:EI; [|discriminate H]. pose proof (Hpos i (or_introl eq_refl)) as Hi. pose proof (idx_ok_lt' L i EI Hi) as Hlt.
+  rewrite (list_get_nth [] L i Hi EI) in H. inversion Hsort as [|a l Hs Hf]; subst.
+  destruct (Z.of_nat (length (nth (Z.to_nat i) L [])) <=? Z.of_nat (length leg)) eqn:ET.
+  - injection H as <-. exists i. split; [left; reflexivity|]. split.
+    + f_equal. unfold norm_insert. assert (E : (i + 1 <? 0) = false) by lia. rewrite E. lia.
+    + split; [exact Hlt|]. split; [lia|]. intros j [<-|Hj] Hgt; [lia|]. rewrite Forall_forall in Hf. specialize (Hf j Hj). lia.
+  - destruct (IH L chk v lit li vi leg L' (fun j Hj => Hpos j (or_intror Hj)) Hs H) as [i' [Hin [HL [Hlt' [Hle Hfail]]]]].
+    exists i'. split; [right; exact Hin|]. split; [exact HL|]. split; [exact Hlt'|]. split; [exact Hle|].
+    intros j [<-|Hj] Hgt; [lia|apply Hfail; assumption].
+Qed.
+Lemma down_from_sorted a : forall m, StronglySorted Z.gt (map (fun k_ => a - Z.of_nat k_) (seq 0 m)).
+Proof.
+  intros m. assert (G : forall s, StronglySorted Z.gt (map (fun k_ => a - Z.of_nat k_) (seq s m))).
+  { induction m as [|m IH]; intros s; [constructor|]. cbn [seq map]. constructor; [apply IH|]. apply Forall_forall. intros x Hx. apply in_map_iff in Hx. destruct Hx as [k [<- Hk]]. apply in_seq in Hk. lia. }
+  apply G.
+Qed.
+Lemma lens_delete L i : lens (delete_atL i L) = delete_atL i (lens L).
+Proof. revert i. induction L as [|a L IH]; intros i; [destruct i; reflexivity|]. destruct i as [|i]; [reflexivity|]. cbn [delete_atL lens map]. f_equal. apply IH. Qed.
+Lemma SS_delete l : StronglySorted le l -> forall i, StronglySorted le (delete_atL i l).
+Proof.
+  induction 1 as [|a l HS IH HF]; intros i; [destruct i; constructor|]. destruct i as [|i]; [exact HS|]. cbn [delete_atL]. constructor; [apply IH|].
+  rewrite Forall_forall in *. intros x Hx. apply HF. clear -Hx. revert i Hx. induction l as [|b l IHl]; intros i Hx; [destruct i; destruct Hx|]. destruct i as [|i]; [right; exact Hx|]. destruct Hx as [->|Hx]; [left; reflexivity|right; apply (IHl i Hx)].
+Qed.
+
+Lemma insert_atL_end {A} (x : A) : forall l, insert_atL (length l) x l = l ++ [x].
+Proof. induction l as [|a l IH]; [reflexivity|]. cbn [length insert_atL app]. rewrite IH. reflexivity. Qed.
+Lemma lens_nth L k : nth k (lens L) O = length (nth k L []).
+Proof. unfold lens. change O with (length (@nil pstr)). apply map_nth. Qed.
+Lemma lens_insert L p x : lens (insert_atL p x L) = insert_atL p (length x) (lens L).
+Proof. revert L. induction p as [|p IH]; intros L; [destruct L; reflexivity|]. destruct L as [|a L]; [reflexivity|]. cbn [insert_atL lens map]. f_equal. apply IH. Qed.
+Lemma lens_length L : length (lens L) = length L. Proof. apply map_length. Qed.
+
+(* append keeps the legs behind the centre ordered by length *)
+Theorem gen_q_append_sorted legs v lit legs' : legs <> [] -> Forall (fun leg => leg <> []) legs -> SortedLegs legs -> py_Q_append legs false v lit = FRet legs' -> SortedLegs legs'.
+Proof.
+  intros Hne Hnonempty HS H. unfold py_Q_append in H. cbv beta iota zeta in H.
+  destruct (py_Q_find legs lit) as [[li vi]| | | |] eqn:EF; try discriminate H. destruct (find_range legs lit li vi EF) as [Hli|Hli]; [subst li; discriminate H|].
+  assert (Hn : norm_idx (length legs) li = li) by (unfold norm_idx; assert (E : (li <? 0) = false) by lia; rewrite E; reflexivity). rewrite !Hn in H.
+  destruct legs as [|c T]; [congruence|]. unfold SortedLegs in *. cbn [tl] in HS.
+  destruct (li =? -1) eqn:E1; [discriminate H|]. destruct (li =? 0) eqn:E0.
+  - injection H as <-. unfold norm_insert. cbn. constructor; [exact HS|]. apply Forall_forall. intros x Hx. unfold lens in Hx. apply in_map_iff in Hx. destruct Hx as [leg [<- Hleg]].
+    rewrite Forall_forall in Hnonempty. specialize (Hnonempty leg (or_intror Hleg)). destruct leg; [congruence|cbn; lia].
+  - destruct (idx_ok (c :: T) li) eqn:EI; [|discriminate H]. pose proof (idx_ok_lt' _ li EI Hli) as Hlt.
+    rewrite !(list_get_nth [] (c :: T) li Hli EI) in H. destruct (Z.to_nat li) as [|k] eqn:EK; [lia|]. cbn [nth delete_atL] in H.
+    set (leg := nth k T []) in *. set (T1 := delete_atL k T) in *.
+    assert (HS1 : StronglySorted le (lens T1)) by (unfold T1; rewrite lens_delete; apply SS_delete; exact HS).
+    destruct (negb (vi =? Z.of_nat (length leg) - 1)); [discriminate H|].
+    destruct (idx_ok (c :: T1) (Z.of_nat (length (c :: T1)) - 1)) eqn:EL; [|discriminate H].
+    set (x := leg ++ [v]) in *.
+    destruct (Z.of_nat (length x) >=? Z.of_nat (length (list_get [] (c :: T1) (Z.of_nat (length (c :: T1)) - 1)))) eqn:EG.
+    + injection H as <-. cbn [app tl]. rewrite <- insert_atL_end, lens_insert, <- (lens_length T1). apply SS_insert; [exact HS1|lia| |intros k0 Hk0; lia].
+      intros k0 Hk0. rewrite lens_length in Hk0. rewrite (list_get_nth [] (c :: T1)) in EG by (try exact EL; cbn [length]; lia).
+      replace (Z.to_nat (Z.of_nat (length (c :: T1)) - 1)) with (length T1) in EG by (cbn [length]; lia). destruct T1 as [|t0 T1'] eqn:ET1; [cbn in Hk0; lia|].
+      cbn [nth length] in EG. apply Nat.le_trans with (nth (length T1') (lens (t0 :: T1')) O); [apply SS_nth; [exact HS1|rewrite lens_length; cbn [length] in *; lia]|].
+      rewrite lens_nth. cbn [nth length] in *. lia.
+    + apply append_loop_picks in H; [| |apply down_from_sorted].
+      * destruct H as [i [Hin [-> [Hlti [Hle Hfail]]]]]. apply in_map_iff in Hin. destruct Hin as [k0 [Hi0 Hk0]]. apply in_seq in Hk0.
+        assert (Hi1 : 1 <= i) by (cbn [length] in *; lia). destruct (Z.to_nat i) as [|i'] eqn:EZ; [lia|]. change (tl (insert_atL (S (S i')) x (c :: T1))) with (insert_atL (S i') x T1). rewrite lens_insert.
+        cbn [nth] in Hle. cbn [length] in Hlti.
+        apply SS_insert; [exact HS1|rewrite lens_length; lia| |].
+        -- intros k1 Hk1. apply Nat.le_trans with (nth i' (lens T1) O); [apply SS_nth; [exact HS1|rewrite lens_length; lia]|]. rewrite lens_nth. exact Hle.
+        -- intros k1 Hk1. rewrite lens_length in Hk1. rewrite lens_nth.
+           assert (HJ : In (Z.of_nat (S k1)) (map (fun k_ => Z.of_nat (length (c :: T1)) - 1 - Z.of_nat k_) (seq 0 (Z.to_nat (Z.of_nat (length (c :: T1)) - 1 - 0))))).
+           { apply in_map_iff. exists (length T1 - S k1)%nat. split; [cbn [length]; lia|]. apply in_seq. cbn [length]. lia. }
+           specialize (Hfail (Z.of_nat (S k1)) HJ ltac:(lia)). rewrite Nat2Z.id in Hfail. cbn [nth] in Hfail. lia.
+      * intros i Hi. apply in_map_iff in Hi. destruct Hi as [k0 [<- Hk0]]. apply in_seq in Hk0. lia.
+Qed.
 Print Assumptions gen_q_anti_commutates.
 Print Assumptions gen_q_max_connected.
 Print Assumptions gen_q_append_to_queue.
@@ -690,6 +806,7 @@ Print Assumptions gen_q_find.
 Print Assumptions gen_q_append_accounts.
 Print Assumptions gen_q_remove_accounts.
 Print Assumptions gen_q_replace_accounts.
+Print Assumptions gen_q_append_sorted.
 Print Assumptions gen_q_append_to_center.
 Print Assumptions gen_q_append_to_center_refuted.
 Print Assumptions gen_q_get_lits.
